@@ -17,7 +17,7 @@ def run(patch, prop, env=None):
 ids = sorted(os.listdir(os.path.join(HERE, "seeded")))
 for mid in ids:
     d = os.path.join(HERE, "seeded", mid)
-    if not os.path.isdir(d) or (only and mid not in only): continue
+    if not os.path.isdir(d) or not os.path.isfile(os.path.join(d, "meta.json")) or (only and mid not in only): continue
     meta = json.load(open(os.path.join(d, "meta.json")))
     prop = meta["property"]
     line = run(os.path.join(d, "patch.diff"), prop)
